@@ -353,6 +353,58 @@ def run(prog: Program, res: Result) -> None:
     if not okrn:
         bad("R4-forwarding", rn.node, "__run__ does not call optimizer.optimize(task, mode=<the designated mode>, ..)", key="multitask.Multitask.__run__::shape")
 
+    # ---- R4 (the receiving end): optimize() runs in the mode it is given
+    opt = prog.func(f"{PKG}.abstract.OptimizationAbstract.optimize")
+    from ..sem import path_conditions
+    mparam = opt.params[2] if len(opt.params) > 2 else "mode"
+    n_mode_stores = 0
+    for n in own_nodes(opt):
+        if isinstance(n, ast.Assign) and any(dotted(t) == "self._mode" for t in n.targets):
+            n_mode_stores += 1
+            uses_mode = any(isinstance(x, ast.Name) and x.id == mparam for x in ast.walk(n.value))
+            # enclosing branch conditions only: the early `raise` guards before it do not make the store conditional
+            conds = [(a.test, True) for a in ancestors(n) if isinstance(a, (ast.If, ast.IfExp, ast.While))]
+            cond_mentions_mode = all(any(isinstance(x, ast.Name) and x.id == mparam for x in ast.walk(t)) for (t, _pol) in conds)
+            okm = uses_mode or not conds or cond_mentions_mode
+            res.ob(okm, f"{opt.module.relpath}:{n.lineno} `{norm(n, 60)}` " + ("from the mode argument" if uses_mode else "default before the argument is read"),
+                   construct_key(prog, n, opt.module))
+            if not okm:
+                res.ob(False)
+                res.add(Finding(P, "C20.R4-mode-honoured", construct_key(prog, n, opt.module), f"{opt.module.relpath}:{n.lineno}",
+                                f"optimize() overrides the solver mode with `{norm(n.value, 40)}` under `{norm(conds[0][0], 50)}`, a "
+                                f"condition that does not depend on the `mode` argument: a pair designated thread/process can be run "
+                                f"in another mode"))
+    res.count("optimize-mode-stores", n_mode_stores)
+    res.floor("optimize-mode-stores", 1)
+
+    # ---- R2 (the membership test itself): `x in ModeSolver` is membership among the *values*
+    me = prog.functions.get(f"{PKG}.enums.MetaEnum.__contains__")
+    if me is None:
+        res.errors.append("enums.MetaEnum.__contains__ vanished")
+    else:
+        by_name = [n for n in ast.walk(me.node) if isinstance(n, ast.Attribute) and n.attr in ("__members__", "_member_names_", "_member_map_", "__dict__")]
+        by_name += [n for n in ast.walk(me.node) if isinstance(n, ast.Call) and isinstance(n.func, ast.Name) and n.func.id in ("hasattr", "getattr", "dir", "vars")]
+        by_value = [n for n in ast.walk(me.node) if (isinstance(n, ast.Call) and isinstance(n.func, ast.Name) and n.func.id == me.params[0])
+                    or (isinstance(n, ast.Attribute) and n.attr in ("_value2member_map_", "value"))]
+        if by_name:
+            res.ob(False)
+            res.add(Finding(P, "C20.R2-membership-by-value", construct_key(prog, by_name[0], me.module), f"{me.module.relpath}:{by_name[0].lineno}",
+                            f"`x in ModeSolver` looks the item up among the member *names* (`{norm(by_name[0], 40)}`): 'THREAD' passes the "
+                            f"construction-time validation although ModeSolver('THREAD') is not a mode, and execute() fails later"))
+        elif by_value:
+            res.ob(True, f"{me.loc()} MetaEnum.__contains__ decides membership by value", "enum-membership")
+        else:
+            res.errors.append(f"{me.loc()} MetaEnum.__contains__ has a shape that is not understood (undecided)")
+
+    # ---- R3 (per instance): the result tables live on the instance
+    from ..shared_state import class_level_shared
+    for (attr, node, hit, m) in class_level_shared(prog, ci):
+        res.ob(False)
+        res.add(Finding(P, "C20.R3-tables-per-instance", f"multitask.Multitask::{attr}", f"{mod.relpath}:{node.lineno}",
+                        f"`{attr}` is a class-level mutable object that {m.name}() changes in place (`{norm(hit, 50)}`) and __init__ never "
+                        f"re-binds: every Multitask instance appends to the same object, a later instance exports earlier instances' tables"))
+    res.ob(True, f"{ci.loc()} no class-level mutable state mutated through self", "per-instance-tables")
+
     # ------------------------------------------------------------------ R5
     er = prog.func(f"{MT}.export_results")
     floops = [n for n in own_nodes(er) if isinstance(n, ast.For)]
@@ -545,6 +597,14 @@ VARIANTS = [
     V("swapped-index-order", _F, "            mode = self._modes[id_optimizer][id_prob]", "            mode = self._modes[id_prob][id_optimizer]", "C20.R1"),
     V("mode-of-first-task", _F, "                mode = self.__get_mode__(id_optimizer, id_task)", "                mode = self.__get_mode__(id_optimizer, 0)", "C20.R3"),
     V("trial-list-short", _F, "        trial_list = list(range(1, n_trials + 1))", "        trial_list = list(range(1, n_trials))", "C20.R3"),
+    V("mode-forced-serial-for-one-worker", "pyvolutionary/abstract.py", "        self._task = task\n\n        self.before_initialization()\n",
+      "        if self._workers == 1:\n            self._mode = ModeSolver.SERIAL\n        self._task = task\n\n        self.before_initialization()\n", "C20.R4"),
+    V("enum-membership-by-name", "pyvolutionary/enums.py", "        try:\n            cls(item)  # pylint: disable=E1120\n        except ValueError:\n            return False\n        return True",
+      "        return item in cls.__members__ or item in cls._value2member_map_", "C20.R2"),
+    V("twin-enum-membership-by-value-map", "pyvolutionary/enums.py", "        try:\n            cls(item)  # pylint: disable=E1120\n        except ValueError:\n            return False\n        return True",
+      "        return isinstance(item, cls) or item in cls._value2member_map_", None),
+    V("tables-class-level", _F, "        self._df2: list[pd.DataFrame] = []\n", "", "C20.R3",
+      more=[(_F, "    def __init__(\n        self,\n        algorithms", "    _df2: list = []\n\n    def __init__(\n        self,\n        algorithms")]),
     V("check-modes-not-called", _F, "        self._df2: list[pd.DataFrame] = []\n\n        self.__check_modes__()\n", "        self._df2: list[pd.DataFrame] = []\n", "C20.R2"),
     V("run-ignores-mode", _F, "        result = optimizer.optimize(task, mode=str(mode), workers=self._n_workers)", "        result = optimizer.optimize(task, workers=self._n_workers)", "C20.R4"),
     V("single-dataframe-for-all", _F, "            self._df2.append(pd.DataFrame(best_fit_optimizer_results))", "        self._df2.append(pd.DataFrame(best_fit_optimizer_results))", "C20.R3"),
